@@ -46,7 +46,7 @@ Definition xsem_eqb (a b : xsem) : bool :=
   && list_eqb (pair_eqb on_eqb on_eqb) (xs_ranges a) (xs_ranges b)
   && list_eqb on_eqb (xs_points a) (xs_points b).
 
-Definition default_choice : choice := {| c_form := FPlain 0; c_fill := 0 |}.
+Definition default_choice : choice := {| c_form := FPlain 0; c_fill := [] |}.
 Definition ch_of (l : list choice) (k : nat) : choice := nth k l default_choice.
 
 Definition bytes_eqb (a b : bytes) : bool := list_eqb N.eqb a b.
@@ -171,6 +171,9 @@ Inductive case :=
 | CClass (p : pool) (bsm : bsms) (ms : list (code_in * list N)) (r : res (list xsem))
 (* constant pool as written by the harness, and for (accessor kind, index) queries duke's resolved value *)
 | CPool (p : pool) (bsm : bsms) (queries : list (N * N * res cval))
+(* the accessors of the class-file formats (ClassFile.acc: 0..12 without bootstrap methods, 13..20 the narrowing
+   accessors of element values) asked through vehicle attributes; duke's resolved value *)
+| CAcc (p : pool) (queries : list (N * N * res cval))
 (* access flags: the u16 in the file and the u16 rebuilt from duke's flag struct *)
 | CAccess (kind : N) (v : N) (back : N)
 (* an attribute list (names, payloads) of a context in file order, and what duke reported as unknown attributes *)
@@ -191,6 +194,7 @@ Definition check (c : case) : bool :=
   | CEnc body ch code => opt_eqb bytes_eqb (encode (ch_of ch) body) code
   | CClass p bsm ms r => res_eqb (list_eqb xsem_eqb) (map_res (read_method p bsm) ms) r
   | CPool p bsm qs => forallb (fun q => match q with (kind, idx, r) => res_eqb cval_eqb (resolve_kind p bsm kind idx) r end) qs
+  | CAcc p qs => forallb (fun q => match q with (kind, idx, r) => res_eqb cval_eqb (acc p kind idx) r end) qs
   | CAccess kind v back => N.eqb (access_back kind v) back
   | CHeader mg minor major accepted => Bool.eqb (header_ok mg minor major) accepted
   | CUnknown ctx attrs reported =>
